@@ -43,7 +43,7 @@ CHECKS = {
              'reference encoders cover TLC recomputes the payload from (id, typed field values). Programs include the '
              'context-dependent leaf Position, flat and inside nested arrays, encoded under both layouts and replayed under a context '
              'of the matching era.',
-        note='Half of the generated strings are built from special code points (section sign, controls, NUL, BOM, non-characters, quotes, bidi / zero-width). Trusted: TLC, pynbt (opaque), the harness\'s value generators and hand-written builders for the six hand-written codecs. A '
+        note='Every round trip is preceded by a write that fails part-way. Half of the generated strings are built from special code points (section sign, controls, NUL, BOM, non-characters, quotes, bidi / zero-width). Trusted: TLC, pynbt (opaque), the harness\'s value generators and hand-written builders for the six hand-written codecs. A '
              'change applied consistently to reader and writer of a hand-written codec is C07\'s to catch for core packets.',
         design='5/C05'),
     'C20': dict(
@@ -61,7 +61,7 @@ CHECKS = {
              'record class hierarchies with the parent class exercised first), attribute aliases and the flag names '
              'of every value 0..255 of the library\'s three flag enums and of generated enums (name parses back; None only when the value '
              'is no union of members) are checked by TLC on recorded observations.',
-        note='Every attribute alias the library declares is discovered by walking its classes and probed in both directions; generated flag enums include enums extending another enum and overriding a member. Trusted: TLC, the projection of the real objects. Integer-valued coordinates; a 4x4 window of the 128x128 map.',
+        note='Map updates whose last row is not full; the map keeps its size. Every attribute alias the library declares is discovered by walking its classes and probed in both directions; generated flag enums include enums extending another enum and overriding a member. Trusted: TLC, the projection of the real objects. Integer-valued coordinates; a 4x4 window of the 128x128 map.',
         design='5/C20'),
     'C19': dict(
         technique='TLA+ model of the token (AuthToken.tla): one transition per (stored-field subset, operation, reply status x body '
@@ -92,7 +92,7 @@ CHECKS = {
              'lengths 1..64, 1024- and 2048-bit keys). Traces come from whole encrypted logins against the independent peer (which '
              'encrypts with its own CFB8 loop, so interoperation is exercised) and from the wrappers driven directly with random '
              'partitions in both directions.',
-        note='Groups of three logins through one Connection object must negotiate distinct secrets. Trusted: TLC arithmetic / Bitwise overrides, Python pow() for the private-key operation. Randomness is checked for source, '
+        note='Half of the encrypted logins carry an ordinary outgoing listener on the encryption response (returning, or raising IgnorePacket). Groups of three logins through one Connection object must negotiate distinct secrets. Trusted: TLC arithmetic / Bitwise overrides, Python pow() for the private-key operation. Randomness is checked for source, '
              'use and distinctness only. About 2.5 KB (quick) of stream are recomputed by the TLA+ AES.',
         design='5/C18'),
     'C17': dict(
@@ -139,7 +139,7 @@ CHECKS = {
              'per-thread reordering, a close before the flush, bytes after an immediate disconnect, lost forced writes, and an '
              'undecodable stream. Writers also race an encrypted login (forced write + cipher swap under the lock), and bursts of '
              '301-620 queued packets - more than the networking thread\'s 300-packet write batch - precede a non-immediate disconnect.',
-        note='Bursts go up to 4200 queued packets (nothing handed in may be dropped). Also: user-defined packets whose serialisation force-writes another packet on the same connection (re-entrant write lock). Every client frame of every execution is also judged by the connection-state grammar Trace_Session.tla. Trusted: TLC, scheduler and virtual primitives, CPython deque atomicity, the peer\'s deframer. Writes issued after the '
+        note='Bursts go up to 4200 queued packets (nothing handed in may be dropped). Second sessions: packets queued, disconnect(immediate), connect(), packets queued, disconnect() on one Connection - the second TCP connection carries its own handshake and exactly its own packets (this scenario found the defect repaired by 29c3a80). Also: user-defined packets whose serialisation force-writes another packet on the same connection (re-entrant write lock). Every client frame of every execution is also judged by the connection-state grammar Trace_Session.tla. Trusted: TLC, scheduler and virtual primitives, CPython deque atomicity, the peer\'s deframer. Writes issued after the '
              'connection has been closed are outside the contract.',
         design='5/C12'),
     'C16': dict(
@@ -149,17 +149,19 @@ CHECKS = {
                   'scheduler validated against the contract Trace_Lifecycle.tla by TLC (I->S)',
         text='ConnLifecycle.tla models thread slots, interrupt flags, socket/file attribute states (incl. never assigned), user threads '
              'calling connect / disconnect / disconnect(immediate), the networking thread step by step (begin, join, adopt, loop top, '
-             'write phase with deferred errors, read phase outcomes, exit callback, exception path with the non-atomic interrupt check '
-             'before disconnect(immediate), finally), reconnects from listeners and exception handlers, servers that accept, refuse or '
+             'write phase with deferred errors, read phase outcomes, exit callback, exception path with the interrupt check and '
+             'disconnect(immediate) under one lock (HEAtomic; the pre-fix shape, check first and disconnect later, is kept as a '
+             'must-fail self-test), finally), reconnects from listeners and exception handlers, servers that accept, refuse or '
              'close. TLC checks AtMostOneInIo, RefusalIsClean, InvalidStateIffActive, DisconnectNeverRaises, SlotsClearedWhenDead, '
-             'IdleMeansConnectable, SuccessorAfterPredecessor and interrupt ~> terminated (also for a thread blocked in a read on a '
+             'IdleMeansConnectable, SuccessorAfterPredecessor, NoCrossTeardown and interrupt ~> terminated (also for a thread blocked in a read on a '
              'stalled server: only a shutdown of the read half wakes it; the variant shutting down the write half only must fail). The real Connection runs every single-thread '
              'history <= 4 and thousands of two-thread scenarios with real threads under a token-passing scheduler (virtual lock, '
              'socket with separate read / write halves, select, queue, thread start/join; servers that accept, refuse, disconnect, close '
              'or stall in the middle of a frame); every execution is judged event by event by the contract.',
         note='Contract clause (e): a failed connection\'s error handling must not tear down a connection made before the failure. Lifecycle servers announce compression at random and C16 owns the session grammar (Trace_Session): a reconnect that opens with an undecodable handshake has not connected again. Trusted: TLC, the scheduler and virtual primitives (semantics observed on real sockets), CPython atomicity of attribute '
-             'access. API bodies are atomic in the model because the code holds the write lock throughout. An extra invariant '
-             '(NoCrossTeardown) fails in the model: observation outside the listed properties, recorded in DESIGN.md.',
+             'access. API bodies are atomic in the model because the code holds the write lock throughout. Contract clause (f): the disconnect '
+             'that ends a thread\'s own error handling never takes down another thread\'s uninterrupted connection (fix 29c3a80; NoCrossTeardown in the model). '
+             'Timed joins may expire whenever the joiner is scheduled again before the other thread ended.',
         design='5/C16'),
     'C15': dict(
         technique='TLA+ model of read_packet with end of stream at every offset (Framing.tla: safety + liveness, the pre-fix loop '
@@ -215,7 +217,7 @@ CHECKS = {
              'configurations one and the same callable is registered for several listeners of a list) '
              'code with the registration order shuffled across lists and the exact call log and the answers the peer saw compared; '
              'random configurations with up to 3 listeners per list are judged by TLC running the model from the recorded configuration.',
-        note='Incoming listeners (superclass filters among them) may be registered after packets of their classes have been dispatched (Dispatch!late). Also: early listeners that call disconnect() on their own connection (only \'ignore\' stops stages: DisconnectingListenerStopsNothing). Trusted: TLC, virtual socket layer, peer codec. Listeners are registered while the networking thread is idle.',
+        note='Decorator objects (the value of Connection.listener(...)) are re-used for several functions. Incoming listeners (superclass filters among them) may be registered after packets of their classes have been dispatched (Dispatch!late). Also: early listeners that call disconnect() on their own connection (only \'ignore\' stops stages: DisconnectingListenerStopsNothing). Trusted: TLC, virtual socket layer, peer codec. Listeners are registered while the networking thread is idle.',
         design='5/C13'),
     'C09': dict(
         technique='TLA+ model of construction / negotiation / status queries (SessionNegotiate.tla) explored exhaustively; every '
@@ -247,7 +249,7 @@ CHECKS = {
              'Runs of plugin requests are sent one at a time and back to back (also back to back with the encryption request that '
              'follows them); the server key comes in three encodings; disconnect reasons cover JSON objects, bare JSON '
              'strings / arrays / null / numbers and non-JSON text.',
-        note='Also: logins that fail after compression / encryption were switched on and are retried from an exception handler must start from scratch. Every client frame of every execution is also judged by the connection-state grammar Trace_Session.tla. Trusted: TLC, virtual socket layer, peer codec, cryptography package for RSA and the AES block, hashlib for the join '
+        note='Plugin requests padded to exactly the compression threshold arrive compressed (the peer compresses from the threshold upwards). Also: logins that fail after compression / encryption were switched on and are retried from an exception handler must start from scratch. Every client frame of every execution is also judged by the connection-state grammar Trace_Session.tla. Trusted: TLC, virtual socket layer, peer codec, cryptography package for RSA and the AES block, hashlib for the join '
              'hash oracle (C17 checks that against TLA+). Thresholds 0,1,64,256,2^31-1 with user-handler payloads sized '
              'thr-1/thr/thr+1.',
         design='5/C10'),
@@ -265,7 +267,7 @@ CHECKS = {
              'Also: two sessions in a row on one Connection object with different compression settings (each judged as a session '
              'of its own; also with the first session dropped behind unanswered keep-alives), two Connection objects alive at once '
              'on different versions, and the play disconnect packet arriving while queued writes are pending under random schedules.',
-        note='Also: play-state set-compression in mid-history at protocols up to 47; angles outside [0,360) in the pre-107 echo; a burst answered by the server\'s disconnect packet (deferred write error cancelled). Every client frame of every execution is also judged by the connection-state grammar Trace_Session.tla. Trusted: TLC, the virtual socket/select/lock layer (semantics taken from real sockets), the peer codec, zlib. Packet '
+        note='Threshold "edge": exactly the size of one of the play packets to come. Also: play-state set-compression in mid-history at protocols up to 47; angles outside [0,360) in the pre-107 echo; a burst answered by the server\'s disconnect packet (deferred write error cancelled). Every client frame of every execution is also judged by the connection-state grammar Trace_Session.tla. Trusted: TLC, the virtual socket/select/lock layer (semantics taken from real sockets), the peer codec, zlib. Packet '
              'ids per version come from the code\'s tables (C07 pins them at releases). Single networking thread: schedules are '
              'not the quantifier here (C12/C16).',
         design='5/C11'),
@@ -281,7 +283,7 @@ CHECKS = {
              'invariants and idempotence on all histories and every reachable state is replayed into minecraft/__init__.py; after '
              'every full re-initialisation the predicates are re-evaluated through utility, through fresh ConnectionContext objects '
              'and through contexts that existed before the extension, and a Connection is constructed.',
-        note='In a third of the histories the records are re-assigned to a new list instead of being edited in place. Trusted: TLC, JSON hand-over, the release-name regular expression re-stated in the harness. Dynamic part over a '
+        note='Versions.tla also lists an id a second time (later record wins, the id keeps its place). In a third of the histories the records are re-assigned to a new list instead of being edited in place. Trusted: TLC, JSON hand-over, the release-name regular expression re-stated in the harness. Dynamic part over a '
              '3-record base list and a pool of 6 extensions (<= 3 / 4 operations).',
         design='5/C08'),
     'C04': dict(
@@ -309,7 +311,7 @@ CHECKS = {
              'descending, zig-zag and shuffled version orders (must stay total and injective whatever was built before) and the '
              'reactors are rebuilt on one context walked across all versions; reactors of all versions are kept alive and re-checked '
              'after the others have been built. Exhaustive over the quantifier of the property.',
-        note='State hand-over probe: one frame read through the real read_packet by the login reactor and then by the playing reactor of the same connection. Application subclasses of every registered class and library base are defined before the tables are rebuilt: none may appear in a table. Trusted: TLC, JSON hand-over. Nine collisions inside snapshot windows are recorded as known findings '
+        note='Versions declared at run time (records appended + initglobals) get total, injective tables equal to those of the latest shipped version. State hand-over probe: one frame read through the real read_packet by the login reactor and then by the playing reactor of the same connection. Application subclasses of every registered class and library base are defined before the tables are rebuilt: none may appear in a table. Trusted: TLC, JSON hand-over. Nine collisions inside snapshot windows are recorded as known findings '
              '(known_findings.json); entries so excused are excluded from the TLC walk, every other collision alarms.',
         design='5/C06'),
     'C02': dict(
@@ -322,7 +324,7 @@ CHECKS = {
              'to depth 3; every row is replayed into send/read of the real types (bytes equal, value back, exact '
              'consumption, every strict prefix raises) and seeded random wide values are validated by TLC. Reads rotate over the '
              'stream kinds the decoders meet in the library (socket-file stand-in, PacketBuffer, BytesIO).',
-        note='Trusted: TLC, JSON hand-over, ldexp/frexp for carrying floats, zlib/NBT out of scope. Long '
+        note='Malformed inputs are fed to the decoders between valid rows; a valid encoding decoded right afterwards must read as before. Trusted: TLC, JSON hand-over, ldexp/frexp for carrying floats, zlib/NBT out of scope. Long '
              'encodings have their strict prefixes sampled.',
         design='5/C02'),
     'C03': dict(
@@ -336,7 +338,7 @@ CHECKS = {
              'inputs run through the code are validated against the contract by TLC. The reader is driven through the '
              'socket-file stand-in, the library\'s PacketBuffer and a bare BytesIO (all three for short inputs, rotating '
              'otherwise); the kinds must agree.',
-        note='Trusted: TLC, the JSON hand-over, the counting stream/sink stand-ins, a 20000-line step '
+        note='Interleaved encoders: a second complete VarInt.send forced into the middle of the first (an int whose shift encodes another value), and three real threads under a 1 us switch interval. Trusted: TLC, the JSON hand-over, the counting stream/sink stand-ins, a 20000-line step '
              'budget as the observable for non-termination. 3-byte inputs by shape x boundary payloads, '
              'not all 2^24.',
         design='5/C03'),
